@@ -129,6 +129,9 @@ pub fn run_session(opts: &str, cmds: &str, events: &str, rules: &str) -> Session
     let tx_model = tx.clone();
     let (tx_out, rx_out) = channel::<String>();
     let opts_c = opts.clone();
+    // set by the model thread as soon as `Model::start` has returned (select-1 / exit-0 end a session by themselves)
+    let ended = Arc::new(std::sync::atomic::AtomicBool::new(false));
+    let ended_c = ended.clone();
     let model_thread = thread::spawn(move || {
         let has = |k: &str| opts_c.iter().any(|o| o == k);
         let val = |k: &str| {
@@ -162,6 +165,7 @@ pub fn run_session(opts: &str, cmds: &str, events: &str, rules: &str) -> Session
         let reader = Reader::with_options(&options).source(None);
         let mut model = Model::new(rx, tx_model, reader, term, &options);
         let out = model.start();
+        ended_c.store(true, std::sync::atomic::Ordering::SeqCst);
         let s = match out {
             None => "none".to_string(),
             Some(o) => format!(
@@ -206,13 +210,18 @@ pub fn run_session(opts: &str, cmds: &str, events: &str, rules: &str) -> Session
         sched::log(format!("user {:?}", ev));
         let _ = tx.send((Key::Null, ev));
     };
+    let is_ended = || ended.load(std::sync::atomic::Ordering::SeqCst);
     let wait_idle = |sent_user: u64| -> bool {
         // all user events handled, then one more heart beat must find the system idle
-        let ok1 = wait_until(|| sched::count("loop.user") >= sent_user, 5000);
+        // (a session that has ended by itself is not waited for)
+        let ok1 = wait_until(|| is_ended() || sched::count("loop.user") >= sent_user, 20000);
+        if is_ended() {
+            return true;
+        }
         let c = sched::count("hb.idle");
         sched::log("user EvHeartBeat".to_string());
         let _ = tx.send((Key::Null, Event::EvHeartBeat));
-        let ok2 = wait_until(|| sched::count("hb.idle") > c, 8000);
+        let ok2 = wait_until(|| is_ended() || sched::count("hb.idle") > c, 20000);
         ok1 && ok2
     };
     let mut finished = false;
@@ -274,28 +283,24 @@ pub fn run_session(opts: &str, cmds: &str, events: &str, rules: &str) -> Session
     }
     if !finished {
         // select-1 / exit-0 may end the session by themselves; otherwise settle and accept
-        let done = wait_until(|| sched::count("hb.idle") > 0, 8000);
+        let done = wait_until(|| is_ended() || sched::count("hb.idle") > 0, 20000);
         if !done {
             idle_failed = true;
         }
-        thread::sleep(Duration::from_millis(2));
-        if let Ok(s) = rx_out.try_recv() {
-            result = Some(s);
+        thread::sleep(Duration::from_millis(5));
+        if !is_ended() && !wait_idle(sent_user) {
+            idle_failed = true;
+        }
+        if is_ended() {
+            result = rx_out.recv_timeout(Duration::from_millis(20000)).ok();
         } else {
-            if !wait_idle(sent_user) {
-                idle_failed = true;
-            }
-            if let Ok(s) = rx_out.try_recv() {
-                result = Some(s);
-            } else {
-                send(Event::EvActAccept(None), &mut sent_user);
-            }
+            send(Event::EvActAccept(None), &mut sent_user);
         }
     }
     let output = match result {
         Some(s) => s,
         None => rx_out
-            .recv_timeout(Duration::from_millis(8000))
+            .recv_timeout(Duration::from_millis(20000))
             .unwrap_or_else(|_| "hang".to_string()),
     };
     if output != "hang" {
